@@ -333,16 +333,16 @@ func c07HistoryFlags(r *run.Run) {
 	mk := func(s string) []glyph.ID {
 		var g []glyph.ID
 		for _, ch := range s {
-			g = append(g, map[rune]glyph.ID{'A': gen.GA, 'B': gen.GB, 'M': gen.GM, 'N': gen.GN, 'L': gen.GL}[ch])
+			g = append(g, map[rune]glyph.ID{'A': gen.GA, 'B': gen.GB, 'C': gen.GC, 'M': gen.GM, 'N': gen.GN, 'L': gen.GL}[ch])
 		}
 		return g
 	}
 	var inputs [][]glyph.ID
-	for _, s := range []string{"", "AA", "AMA", "ANA", "AMNA", "BAA", "BAMA", "BANA", "BANMA", "AMABAMA", "BAMAAMA", "M", "ALA", "BALA"} {
+	for _, s := range []string{"", "CAA", "CAMA", "CANA", "CAMNA", "BAA", "BAMA", "BANA", "BANMA", "CAMABAMA", "BAMACAMA", "M", "CALA", "BALA", "AMA"} {
 		inputs = append(inputs, mk(s))
 	}
 	r.Explore(explore.Config{Name: "C07.history-flags", Deadline: r.PartDeadline(0.5)},
-		fmt.Sprintf("lists [context 'A A' -> child a at 0, context 'B A A' -> child b at 1, child a, child b] where a and b are copies of one lookup (GSUB: ligature / single substitution; GPOS: single / pair adjustment) with ALL pairs of flags from the 11-entry flag menu, parents ignoring marks and ligatures; all histories of <= 2 Apply calls over %d inputs on one Context: every probe gives the same result as on a fresh Context", len(inputs)),
+		fmt.Sprintf("lists [context 'C A A' -> child a at 1, context 'B A A' -> child b at 1, child a, child b] where a and b are copies of one lookup (GSUB: ligature / single substitution; GPOS: single / pair adjustment) with ALL pairs of flags from the 11-entry flag menu, parents ignoring marks and ligatures; all histories of <= 2 Apply calls over %d inputs on one Context: every probe gives the same result as on a fresh Context", len(inputs)),
 		func(c *explore.Ctx) {
 			gpos := c.Bool("gpos")
 			menu, ctxType := gen.GsubSimple, uint16(5)
@@ -356,14 +356,14 @@ func c07HistoryFlags(r *run.Run) {
 			fb := gen.Flags[c.Choose(len(gen.Flags), "flags of child b")]
 			pf := gen.FlagSet{Flags: gtab.IgnoreMarks | gtab.IgnoreLigatures, Name: "-marks-ligs"}
 			ll := gtab.LookupList{
-				gen.MakeLookup(ctxType, pf, []gtab.Subtable{gen.Context(2, gen.Pattern{Input: []glyph.ID{gen.GA, gen.GA}}, []gtab.SeqLookup{{SequenceIndex: 0, LookupListIndex: 2}})}),
+				gen.MakeLookup(ctxType, pf, []gtab.Subtable{gen.Context(2, gen.Pattern{Input: []glyph.ID{gen.GC, gen.GA, gen.GA}}, []gtab.SeqLookup{{SequenceIndex: 1, LookupListIndex: 2}})}),
 				gen.MakeLookup(ctxType, pf, []gtab.Subtable{gen.Context(2, gen.Pattern{Input: []glyph.ID{gen.GB, gen.GA, gen.GA}}, []gtab.SeqLookup{{SequenceIndex: 1, LookupListIndex: 3}})}),
 				gen.MakeLookup(child.Type, fa, child.Sub()),
 				gen.MakeLookup(child.Type, fb, child.Sub()),
 			}
 			gd, _ := gen.Gdef(0)
 			applied := []gtab.LookupIndex{0, 1}
-			desc := []string{"0: context fmt3 -marks-ligs [AA] 2@0", "1: context fmt3 -marks-ligs [BAA] 3@1", "2: " + child.Name + " " + fa.Name, "3: " + child.Name + " " + fb.Name}
+			desc := []string{"0: context fmt3 -marks-ligs [CAA] 2@1", "1: context fmt3 -marks-ligs [BAA] 3@1", "2: " + child.Name + " " + fa.Name, "3: " + child.Name + " " + fb.Name}
 			var hist []string
 			c.Sample(func() any { return map[string]any{"lists": desc, "history": hist} })
 			ctx := gtab.NewContext(ll, gd, applied)
